@@ -26,9 +26,9 @@ import (
 
 type tsaWorld struct {
 	root, inter, leaf2, leaf3 *pki.Cert // leaf2 issued by root, leaf3 issued by inter
-	otherRoot, otherLeaf     *pki.Cert
-	variants                 map[string][]*pki.Cert // defective TSA chains by name
-	pool                     *x509.CertPool
+	otherRoot, otherLeaf      *pki.Cert
+	variants                  map[string][]*pki.Cert // defective TSA chains by name
+	pool                      *x509.CertPool
 }
 
 var (
@@ -94,8 +94,12 @@ func tsaBehaviours() []tsaBehaviour {
 			return tsaReplyOK(pki.TSResponse(0, tok))
 		}})
 	}
-	std2 := func(w *tsaWorld) pki.TSASpec { return pki.TSASpec{Signer: w.leaf2, Embed: []*pki.Cert{w.leaf2, w.root}} }
-	std3 := func(w *tsaWorld) pki.TSASpec { return pki.TSASpec{Signer: w.leaf3, Embed: []*pki.Cert{w.leaf3, w.inter, w.root}} }
+	std2 := func(w *tsaWorld) pki.TSASpec {
+		return pki.TSASpec{Signer: w.leaf2, Embed: []*pki.Cert{w.leaf2, w.root}}
+	}
+	std3 := func(w *tsaWorld) pki.TSASpec {
+		return pki.TSASpec{Signer: w.leaf3, Embed: []*pki.Cert{w.leaf3, w.inter, w.root}}
+	}
 	token("granted-valid-chain2", true, 2, std2)
 	token("granted-valid-chain3", true, 3, std3)
 	token("granted-valid-leaf-only-embedded(intermediate missing)", false, 0, func(w *tsaWorld) pki.TSASpec { return pki.TSASpec{Signer: w.leaf3, Embed: []*pki.Cert{w.leaf3}} })
@@ -113,13 +117,19 @@ func tsaBehaviours() []tsaBehaviour {
 			return tsaReplyOK(pki.TSResponse(st.v, pki.ForgeTSToken(req, std2(w))))
 		}})
 	}
-	out = append(out, tsaBehaviour{name: "status-rejection-no-token", reply: func(w *tsaWorld, req *tspclient.Request, tokenOut *[]byte) netsim.Answer { return tsaReplyOK(pki.TSResponse(2, nil)) }})
-	out = append(out, tsaBehaviour{name: "granted-without-token", reply: func(w *tsaWorld, req *tspclient.Request, tokenOut *[]byte) netsim.Answer { return tsaReplyOK(pki.TSResponse(0, nil)) }})
+	out = append(out, tsaBehaviour{name: "status-rejection-no-token", reply: func(w *tsaWorld, req *tspclient.Request, tokenOut *[]byte) netsim.Answer {
+		return tsaReplyOK(pki.TSResponse(2, nil))
+	}})
+	out = append(out, tsaBehaviour{name: "granted-without-token", reply: func(w *tsaWorld, req *tspclient.Request, tokenOut *[]byte) netsim.Answer {
+		return tsaReplyOK(pki.TSResponse(0, nil))
+	}})
 	token("wrong-imprint", false, 0, func(w *tsaWorld) pki.TSASpec { s := std2(w); s.WrongImprint = true; return s })
 	token("wrong-hash-algorithm", false, 0, func(w *tsaWorld) pki.TSASpec { s := std2(w); s.WrongHashAlg = true; return s })
 	token("wrong-nonce", false, 0, func(w *tsaWorld) pki.TSASpec { s := std2(w); s.Nonce = "wrong"; return s })
 	token("no-nonce", false, 0, func(w *tsaWorld) pki.TSASpec { s := std2(w); s.Nonce = "none"; return s })
-	token("untrusted-root", false, 0, func(w *tsaWorld) pki.TSASpec { return pki.TSASpec{Signer: w.otherLeaf, Embed: []*pki.Cert{w.otherLeaf, w.otherRoot}} })
+	token("untrusted-root", false, 0, func(w *tsaWorld) pki.TSASpec {
+		return pki.TSASpec{Signer: w.otherLeaf, Embed: []*pki.Cert{w.otherLeaf, w.otherRoot}}
+	})
 	token("signed-by-another-key-than-the-embedded-tsa", false, 0, func(w *tsaWorld) pki.TSASpec { s := std2(w); s.SignWith = pki.K("p256-h"); return s })
 	token("corrupted-cms-signature", false, 0, func(w *tsaWorld) pki.TSASpec { s := std2(w); s.CorruptSignature = true; return s })
 	token("message-digest-attribute-mismatch", false, 0, func(w *tsaWorld) pki.TSASpec { s := std2(w); s.WrongMsgDigest = true; return s })
@@ -129,7 +139,9 @@ func tsaBehaviours() []tsaBehaviour {
 		v := v
 		token("tsa-"+v, false, 0, func(w *tsaWorld) pki.TSASpec { ch := w.variants[v]; return pki.TSASpec{Signer: ch[0], Embed: ch} })
 	}
-	out = append(out, tsaBehaviour{name: "garbage-body", reply: func(w *tsaWorld, req *tspclient.Request, tokenOut *[]byte) netsim.Answer { return tsaReplyOK([]byte("not a timestamp response")) }})
+	out = append(out, tsaBehaviour{name: "garbage-body", reply: func(w *tsaWorld, req *tspclient.Request, tokenOut *[]byte) netsim.Answer {
+		return tsaReplyOK([]byte("not a timestamp response"))
+	}})
 	out = append(out, tsaBehaviour{name: "empty-body", reply: func(w *tsaWorld, req *tspclient.Request, tokenOut *[]byte) netsim.Answer { return tsaReplyOK(nil) }})
 	out = append(out, tsaBehaviour{name: "http-500-with-valid-reply", reply: func(w *tsaWorld, req *tspclient.Request, tokenOut *[]byte) netsim.Answer {
 		a := tsaReplyOK(pki.TSResponse(0, pki.ForgeTSToken(req, std2(w))))
@@ -141,7 +153,9 @@ func tsaBehaviours() []tsaBehaviour {
 		a.Header = http.Header{"Content-Type": {"text/html"}}
 		return a
 	}})
-	out = append(out, tsaBehaviour{name: "transport-error", reply: func(w *tsaWorld, req *tspclient.Request, tokenOut *[]byte) netsim.Answer { return netsim.Answer{Err: netsim.ErrTransport} }})
+	out = append(out, tsaBehaviour{name: "transport-error", reply: func(w *tsaWorld, req *tspclient.Request, tokenOut *[]byte) netsim.Answer {
+		return netsim.Answer{Err: netsim.ErrTransport}
+	}})
 	out = append(out, tsaBehaviour{name: "truncated-reply", reply: func(w *tsaWorld, req *tspclient.Request, tokenOut *[]byte) netsim.Answer {
 		b := pki.TSResponse(0, pki.ForgeTSToken(req, std2(w)))
 		return tsaReplyOK(b[:len(b)/2])
@@ -360,7 +374,9 @@ func init() {
 		Assumptions: []string{"caller-written Timestamper implementations that skip RFC 3161 response validation are outside the seam the property names", "a validator returning nil entries is outside its contract and not generated"},
 		Init:        func(mc.Tier) (int, error) { envFix.init(); tsaGetWorld(); return len(tsaW.variants) + 6, nil },
 		Scenarios:   c15Scenarios,
-		Alphabet:    func(mc.Tier) map[string]int { return map[string]int{"tsa_behaviours": len(c15Behaviours), "revocation_results": 4, "validator_modes": 5} },
+		Alphabet: func(mc.Tier) map[string]int {
+			return map[string]int{"tsa_behaviours": len(c15Behaviours), "revocation_results": 4, "validator_modes": 5}
+		},
 		Guards: func(s *mc.Stats, t mc.Tier) []string {
 			var w []string
 			for _, o := range []string{"timestamping=true signed=true", "timestamping=true signed=false", "timestamping=false signed=true"} {
